@@ -173,6 +173,17 @@ def run(chk):
         chk.ob("R4.broadcast", fn, "broadcast: every stream in self.streams", ok and labs == ["Broadcast"], f"{panics.short_desc(recv_d)} under {labs}", where=b.where(blk))
         data = describe(prog, b, t["args"][1])
         chk.ob("R4.broadcast", fn, "broadcast data is the message's serialised frame", desc_contains(data, lambda y: y[0] == "call" and y[1].endswith("Message::to_frame")), f"{panics.short_desc(data)}")
+    # ---- R7 the poll loop never blocks
+    BLOCKING = (r"mpsc::Receiver::<T>::(recv|recv_timeout|iter)$|mpsc::Receiver<T> as std::iter::IntoIterator|WebsocketStream::recv$|message::Message::from_stream$|"
+                r"JoinHandle::<T>::join$|std::sync::Condvar::wait|TcpListener::accept$|Incoming<'a> as std::iter::Iterator>::next$")
+    for blk, t in b.calls():
+        if core.call_matches(t, BLOCKING):
+            chk.ob("R7.never_blocks", fn, f"blocking call {t['callee'].split('::')[-1]} in the poll loop", False,
+                   f"{t['callee']} can block the single poll loop indefinitely: no client is polled, nothing is sent and the shutdown signal is not seen until it returns",
+                   where=b.where(blk))
+    chk.ob("R7.never_blocks", fn, "the poll loop uses only try_recv / try_iter / recv_nonblocking", True)
+    from . import c11
+    c11.probe_only_first(chk, prog, "R1.whole_messages")
     # ---- R5 shutdown
     keys = [blk for blk, t in b.calls_to(r"HashMap::<K, V, S, A>::keys$")]
     tr = [blk for blk, t in b.calls_to(r"Receiver::<T>::try_recv$") if desc_contains(describe(prog, b, t["args"][0]), lambda y: y[0] == "field" and y[2] == ix["shutdown"])]
